@@ -32,6 +32,8 @@ func runC06(c *Ctx) {
 	}
 	// the method of Spec that calls lookahead.BuildParsingTable
 	var lalr *ssa.Function
+	var viaHelper *ssa.Function // the method of Spec that hands the LALR builder to a helper, if any
+	_ = viaHelper
 	var build *ssa.Call
 	for _, m := range []string{"LALRParsingTable", "SLRParsingTable", "GLRParsingTable"} {
 		_ = m
@@ -56,6 +58,38 @@ func runC06(c *Ctx) {
 				if strings.Contains(n, "/lookahead.") {
 					lalr = f
 					build, _ = call.(*ssa.Call)
+				}
+				return
+			}
+			// the builder handed as a function value to a helper of the package that calls it: the call of the parameter
+			// in the helper is the build site
+			callee := call.Common().StaticCallee()
+			if callee == nil || callee.Pkg != f.Pkg {
+				return
+			}
+			for ai, a := range call.Common().Args {
+				g, ok := a.(*ssa.Function)
+				if !ok {
+					if mi, isMI := a.(*ssa.ChangeType); isMI {
+						g, ok = mi.X.(*ssa.Function)
+					}
+				}
+				if !ok || g == nil {
+					continue
+				}
+				n := g.String()
+				if !(strings.HasPrefix(n, depPath+"/parser/lr/") && strings.HasSuffix(n, ".BuildParsingTable")) || ai >= len(callee.Params) {
+					continue
+				}
+				builders[f.Name()] = n
+				if strings.Contains(n, "/lookahead.") {
+					allCalls(callee, func(inner ssa.CallInstruction) {
+						if iv, ok := inner.(*ssa.Call); ok && iv.Call.Value == ssa.Value(callee.Params[ai]) {
+							lalr = callee
+							build = iv
+							viaHelper = f
+						}
+					})
 				}
 			}
 		})
@@ -92,6 +126,16 @@ func runC06(c *Ctx) {
 			}
 			if cal := call.Common().StaticCallee(); cal != nil && strings.HasPrefix(fnPkgPath(cal), modPath) {
 				walkStatic(cal)
+			}
+			for _, a := range call.Common().Args {
+				if ct, ok := a.(*ssa.ChangeType); ok {
+					a = ct.X
+				}
+				if g, ok := a.(*ssa.Function); ok {
+					if n := g.String(); strings.HasPrefix(n, depPath+"/parser/lr/") && strings.HasSuffix(n, ".BuildParsingTable") {
+						reached[n] = true
+					}
+				}
 			}
 		})
 		// function values stored in struct fields (Command.funcs.Generate) are followed through their definitions
